@@ -463,7 +463,7 @@ func runChan(t *testing.T, c *ChanCase) (term string, viols []vh.Violation, tags
 		close(r.stopc)
 		synctest.Wait()
 	})
-	term = fmt.Sprintf("KChan %s %s [\n  %s]", vh.Str(key), vh.Bool(marshalOK), joinLines(hist))
+	term = fmt.Sprintf("KChan %s %s %s [\n  %s]", vh.Str(key), vh.Bool(marshalOK), vh.Z(int64(capQ)), joinLines(hist))
 	return term, viols, tags
 }
 
@@ -617,7 +617,8 @@ func genChan(r *vh.Rand, maxOps int) *ChanCase {
 }
 
 // genOverflow: block the worker, overfill the queue, interleave small messages, then release.
-func genOverflow(r *vh.Rand) *ChanCase {
+// genOverflow overfills the queue whatever its (measured) capacity is.
+func genOverflow(r *vh.Rand, capacity int) *ChanCase {
 	c := &ChanCase{Key: vh.Pick(r, [][]byte{[]byte("nfl"), []byte("sil")})}
 	peers := []string{"p1", "p2"}
 	if r.Bool() {
@@ -625,7 +626,7 @@ func genOverflow(r *vh.Rand) *ChanCase {
 	}
 	c.Ops = append(c.Ops, ChanOp{Kind: "env", Peers: peers, Fail: subset(r, peers), Gate: false})
 	big := innerAtThreshold(c.Key) + r.Range(1, 8)
-	c.Ops = append(c.Ops, ChanOp{Kind: "bcast", Size: big, Fill: 65, Rep: 198 + r.Intn(3)})
+	c.Ops = append(c.Ops, ChanOp{Kind: "bcast", Size: big, Fill: 65, Rep: max(2, capacity-2+r.Intn(3))})
 	for i := 0; i < 6; i++ {
 		if r.Chance(1, 3) {
 			c.Ops = append(c.Ops, ChanOp{Kind: "bcast", Size: innerAtThreshold(c.Key) - r.Intn(3), Fill: 65})
@@ -712,7 +713,7 @@ func TestCheck(t *testing.T) {
 			cases = append(cases, Case{Kind: "chan", Chan: genChan(r.Fork(), 24)})
 		}
 		for i := 0; i < env.N(3, 3); i++ {
-			cases = append(cases, Case{Kind: "chan", Chan: genOverflow(r.Fork())})
+			cases = append(cases, Case{Kind: "chan", Chan: genOverflow(r.Fork(), queueCapacity(t))})
 		}
 		for i := 0; i < env.N(8, 4); i++ {
 			cases = append(cases, Case{Kind: "chan", Chan: genBackToBack(r.Fork())})
